@@ -25,6 +25,9 @@ type NetOpts struct {
 	// ProofEraSpread > 0 stretches the two early storage-proof eras: the Tax fork height and
 	// everything after it is shifted by a drawn 0..Spread, and again from the StorageProof fork on.
 	ProofEraSpread int
+	// MixedWindow > 0 widens the span in which v1 and v2 transactions are both legal:
+	// RequireHeight is moved to at least AllowHeight + a drawn 1..MixedWindow.
+	MixedWindow int
 }
 
 // GenNetwork draws a network configuration with chronologically ordered fork heights
@@ -78,6 +81,14 @@ func GenNetwork(t *rapid.T, o NetOpts) (*consensus.Network, types.Block) {
 		n.HardforkV2.RequireHeight = 1
 		if n.HardforkV2.FinalCutHeight == 0 {
 			n.HardforkV2.FinalCutHeight = 1
+		}
+	}
+	if o.MixedWindow > 0 && !o.V2Only {
+		if r := n.HardforkV2.AllowHeight + uint64(rapid.IntRange(1, o.MixedWindow).Draw(t, "mixedWindow")); r > n.HardforkV2.RequireHeight {
+			n.HardforkV2.RequireHeight = r
+		}
+		if n.HardforkV2.FinalCutHeight < n.HardforkV2.RequireHeight {
+			n.HardforkV2.FinalCutHeight = n.HardforkV2.RequireHeight
 		}
 	}
 	if o.V1Only {
